@@ -18,7 +18,9 @@ Definition connect_circuit (c other : circuit) (tc oc : list label)
   do _ <- check_block_doesnt_exist name c;
   do _ <- check_gates_exist tc c;
   do _ <- check_gates_exist oc other;
-  do _ <- (if right_connect then if nodupb tc then Ok tt else Err CreateBlockError
+  do _ <- (if right_connect then
+             if nodupb tc then if nodupb oc then Ok tt else Err CreateBlockError
+             else Err CreateBlockError
            else if nodupb oc then Ok tt else Err CreateBlockError);
   do _ <- (if Nat.eqb (length tc) (length oc) then Ok tt else Err CreateBlockError);
   do _ <- (if right_connect then
